@@ -62,11 +62,14 @@ type Storm struct {
 }
 
 type Scenario struct {
-	Kind    string   `json:"kind"` // seq | storm
-	Steps   []Step   `json:"steps,omitempty"`
-	Storm   *Storm   `json:"storm,omitempty"`
-	Flood   *Flood   `json:"flood,omitempty"`
-	Overlap *Overlap `json:"overlap,omitempty"`
+	Kind       string   `json:"kind"` // seq | storm
+	Steps      []Step   `json:"steps,omitempty"`
+	Storm      *Storm   `json:"storm,omitempty"`
+	Flood      *Flood   `json:"flood,omitempty"`
+	Overlap    *Overlap `json:"overlap,omitempty"`
+	Readers    int      `json:"readers,omitempty"`            // readers of the SDK MeterProvider that gets installed (default 1)
+	Concurrent bool     `json:"concurrent_collect,omitempty"` // final collections of all readers released together, 3 rounds
+	SlowRegUs  int      `json:"slow_register_us,omitempty"`   // the SDK's RegisterCallback is this slow (widens the hand-over)
 }
 
 func childMain() {
@@ -107,7 +110,7 @@ func childMain() {
 			os.Exit(3)
 		})
 	}()
-	w := newWorld()
+	w := newWorld(max(1, sc.Readers), sc.Concurrent, time.Duration(sc.SlowRegUs)*time.Microsecond)
 	func() {
 		defer func() {
 			if e := recover(); e != nil {
